@@ -45,6 +45,8 @@ def run(case):
     M = np.array(case['lattice']['matrix'], float)
     symbols = case['symbols']
     kinds = sorted(set(symbols))
+    order = [k for k in case.get('ref_order', []) if k < len(kinds)]
+    kinds = [kinds[k] for k in order] + [x for i, x in enumerate(kinds) if i not in order]
     mode = case['ref_mode']
     if mode == 'none':
         ref_syms, float_syms = kinds, []
@@ -120,7 +122,7 @@ def run(case):
 
     # clause: floating S == fixed (all other species); none == all species
     if mode == 'none':
-        alt = {'fixed_species': list(kinds)}
+        alt = {'fixed_species': sorted(kinds)}
     elif mode == 'fixed':
         alt = {'floating_species': list(float_syms)} if float_syms else None
     else:
@@ -153,6 +155,7 @@ def drift_cases(draw, tier):
     c['ref_mode'] = draw(st.sampled_from(['fixed', 'fixed', 'floating', 'floating', 'none']))
     c['ref_kind'] = draw(st.sampled_from(['str', 'list', 'tuple', 'set']))
     c['ref_count'] = draw(st.integers(1, 3))
+    c['ref_order'] = draw(st.permutations(list(range(6))))
     c['form'] = draw(st.sampled_from(['wrapped', 'unwrapped']))
     c['touch_first'] = draw(st.booleans())
     return c
